@@ -1089,6 +1089,151 @@ fn check_swizzle(i: u64) -> Verdict {
     }
 }
 
+/// types of the const-write table
+#[derive(Clone, Debug, PartialEq)]
+enum WTy {
+    S(&'static str),
+    V(&'static str, usize),
+    M(&'static str, usize, usize),
+    A(Box<WTy>, usize),
+    St(&'static str),
+}
+const WRITE_PRELUDE: &str = "struct WS { int m; float2 v; float2x2 x; int arr[2]; };\nstruct WT { WS s; WS sa[2]; float3 q; };\n";
+impl WTy {
+    /// `T name` / `T name[n]`
+    fn decl(&self, name: &str) -> String {
+        match self {
+            WTy::A(e, n) => format!("{}[{}]", e.decl(name), n),
+            WTy::S(s) | WTy::St(s) => format!("{} {}", s, name),
+            WTy::V(s, n) => format!("{}{} {}", s, n, name),
+            WTy::M(s, r, c) => format!("{}{}x{} {}", s, r, c, name),
+        }
+    }
+    /// one access step and the type it yields
+    fn steps(&self) -> Vec<(String, WTy)> {
+        const L: [&str; 4] = ["x", "y", "z", "w"];
+        match self {
+            WTy::S(_) => vec![],
+            WTy::V(s, n) => {
+                let mut v = vec![(".x".to_string(), WTy::S(s)), (format!(".{}", L[n - 1]), WTy::S(s)), ("[0]".to_string(), WTy::S(s)), (format!("[{}]", n - 1), WTy::S(s))];
+                v.push((format!(".{}x", L[n - 1]), WTy::V(s, 2)));
+                v
+            }
+            WTy::M(s, r, c) => vec![
+                ("[0]".to_string(), WTy::V(s, *c)),
+                (format!("[{}]", r - 1), WTy::V(s, *c)),
+                ("._m00".to_string(), WTy::S(s)),
+                (format!("._m{}{}", r - 1, c - 1), WTy::S(s)),
+                (format!("._m{}{}_m00", r - 1, c - 1), WTy::V(s, 2)),
+            ],
+            WTy::A(e, n) => vec![("[0]".to_string(), (**e).clone()), (format!("[{}]", n - 1), (**e).clone())],
+            WTy::St("WS") => vec![
+                (".m".to_string(), WTy::S("int")),
+                (".v".to_string(), WTy::V("float", 2)),
+                (".x".to_string(), WTy::M("float", 2, 2)),
+                (".arr".to_string(), WTy::A(Box::new(WTy::S("int")), 2)),
+            ],
+            WTy::St(_) => vec![(".s".to_string(), WTy::St("WS")), (".sa".to_string(), WTy::A(Box::new(WTy::St("WS")), 2)), (".q".to_string(), WTy::V("float", 3))],
+        }
+    }
+}
+/// (root type, access path, leaf type): every path of at most 4 steps from each root
+fn write_paths() -> &'static Vec<(WTy, String, WTy)> {
+    static PATHS: std::sync::OnceLock<Vec<(WTy, String, WTy)>> = std::sync::OnceLock::new();
+    PATHS.get_or_init(|| {
+        let arr = |t: WTy| WTy::A(Box::new(t), 2);
+        let roots = vec![
+            WTy::S("int"),
+            WTy::V("float", 3),
+            WTy::V("uint", 4),
+            WTy::M("float", 2, 2),
+            WTy::M("float", 3, 4),
+            WTy::M("int", 4, 3),
+            arr(WTy::S("int")),
+            arr(WTy::V("float", 3)),
+            arr(WTy::M("float", 2, 2)),
+            WTy::St("WS"),
+            WTy::St("WT"),
+            arr(WTy::St("WS")),
+        ];
+        let mut out = Vec::new();
+        for root in roots {
+            let mut frontier = vec![(String::new(), root.clone())];
+            for _depth in 0..=4 {
+                let mut next = Vec::new();
+                for (p, t) in &frontier {
+                    if !matches!(t, WTy::A(..)) {
+                        out.push((root.clone(), p.clone(), t.clone()));
+                    }
+                    for (s, t2) in t.steps() {
+                        next.push((format!("{}{}", p, s), t2));
+                    }
+                }
+                frontier = next;
+            }
+        }
+        out
+    })
+}
+const WRITE_FORMS: usize = 7;
+const WRITE_PLACEMENTS: usize = 3;
+/// (program with the const object, its twin without `const`, description, must the const program be rejected)
+fn const_write_case(i: u64) -> Option<(String, String, String, bool)> {
+    let paths = write_paths();
+    let mut k = i as usize;
+    let form = k % WRITE_FORMS;
+    k /= WRITE_FORMS;
+    let placement = k % WRITE_PLACEMENTS;
+    k /= WRITE_PLACEMENTS;
+    let (root, path, leaf) = paths.get(k)?;
+    let numeric = !matches!(leaf, WTy::St(_));
+    if !numeric && matches!(form, 1 | 2 | 3) {
+        return None;
+    }
+    // a local array cannot be initialised from another array
+    if placement == 1 && matches!(root, WTy::A(..)) {
+        return None;
+    }
+    let (p, q) = (format!("c{}", path), format!("s{}", path));
+    let stmt = match form {
+        0 => format!("{} = {};", p, q),
+        1 => format!("{} += {};", p, q),
+        2 => format!("{}++;", p),
+        3 => format!("--{};", p),
+        4 => format!("zo({}, {});", p, q),
+        5 => format!("zio({}, {});", p, q),
+        _ => format!("{} = {};", q, p),
+    };
+    let helper = match form {
+        4 => format!("void zo(out {}, {}) {{ p = q; }}\n", leaf.decl("p"), leaf.decl("q")),
+        5 => format!("void zio(inout {}, {}) {{ p = q; }}\n", leaf.decl("p"), leaf.decl("q")),
+        _ => String::new(),
+    };
+    let build = |konst: &str| match placement {
+        0 => format!("{}{}void f({}{}, {}) {{\n    {}\n}}\n", WRITE_PRELUDE, helper, konst, root.decl("c"), root.decl("s"), stmt),
+        1 => format!("{}{}void f({}) {{\n    {}{} = s;\n    {}\n}}\n", WRITE_PRELUDE, helper, root.decl("s"), konst, root.decl("c"), stmt),
+        _ => format!("{}{}static {}{};\nvoid f({}) {{\n    {}\n}}\n", WRITE_PRELUDE, helper, konst, root.decl("c"), root.decl("s"), stmt),
+    };
+    let what = format!("{} `{}` with c a {} of type {}", ["assignment", "compound assignment", "post-increment", "pre-decrement", "out argument", "inout argument", "read"][form], stmt, ["const parameter", "const local", "static const global"][placement], root.decl("").trim());
+    Some((build("const "), build(""), what, form != 6))
+}
+fn check_const_write(i: u64) -> Verdict {
+    let Some((konst, twin, what, must_reject)) = const_write_case(i) else { return Verdict::pass(None, vec!["const_write_not_applicable".into()]) };
+    match type_check_text(&twin) {
+        Err(p) => return Verdict::fail(format!("panic:{}", p), twin),
+        // the path or form is outside the accepted language: nothing to compare
+        Ok(Err(_)) => return Verdict::pass(None, vec!["const_write_twin_rejected".into()]),
+        Ok(Ok(_)) => {}
+    }
+    match type_check_text(&konst) {
+        Err(p) => Verdict::fail(format!("panic:{}", p), konst),
+        Ok(Ok(_)) if must_reject => Verdict::fail("ill-typed-accepted:const-write", format!("{}: accepted although c is const (the same program without `const` is accepted too)\n{}", what, konst)),
+        Ok(Err(d)) if !must_reject => Verdict::fail("valid-program-rejected:const-read", format!("{}: {}\n{}", what, d, konst)),
+        Ok(Ok(_)) => Verdict::pass(Some(i), vec!["const_read_accepted".into()]),
+        Ok(Err(_)) => Verdict::pass(Some(i), vec!["const_write_rejected".into()]),
+    }
+}
+
 /// an lvalue of type A passed to an `out` / `inout` parameter of type P (both from {bool,int,uint,float} x {scalar,1,2,3}):
 /// accepted exactly when the types are equal, or are T and T1 of the same scalar (a one-element vector aliases its scalar)
 fn out_argument_case(i: u64) -> (String, bool, String) {
@@ -1128,6 +1273,7 @@ pub fn check_record(r: &Value) -> Verdict {
         "catalogue" => check_catalogue(r["name"].as_str().unwrap_or("")),
         "swizzle" => check_swizzle(r["index"].as_u64().unwrap_or(0)),
         "out_argument" => check_out_argument(r["index"].as_u64().unwrap_or(0)),
+        "const_write" => check_const_write(r["index"].as_u64().unwrap_or(0)),
         "inject" => {
             let base = r["base"].as_str().unwrap_or("");
             let name = r["violation"].as_str().unwrap_or("");
@@ -1140,7 +1286,7 @@ pub fn check_record(r: &Value) -> Verdict {
 
 pub fn run(ctx: &mut Ctx) {
     use proptest::prelude::*;
-    ctx.rule = "(1) IR lint: generated programs of the resource-free subset (always accepted, checked), every 1-2 operator expression tree over the whole operator table on int / float / mixed int-float-uint-bool operands (accepted or rejected; only accepted ones are linted), and the repository's own .rssl inputs are type checked; the resulting module is walked by an independent checker with structural types (operand types equal and of the required class for every operator, non-const lvalues for every write, call arity / argument types / out arguments, return types, constructor slots, initialiser shapes, conditions, subscripts, existing ids) and by RSSL's own Expression::get_type asserts. (2) Injection: 86 kinds of single typing violations (writes to const incl. members / elements / swizzles of const objects and static const globals, writes to rvalues, rvalue or const out / inout arguments, argument count and type errors, return type errors, non-boolean conditions, non-integer switch values, operator operand classes, initialiser shapes, ...) are placed in 15 expression / 5 statement / 3 return contexts inside a function appended before or after a generated program or as a struct method; the program with the violation must be rejected with a diagnostic and its valid twin must be accepted. Writes through every swizzle of length 1-4 over xyzw / rgba on float2/3/4 in four write positions (=, +=, out argument, ++) must be accepted exactly when all components exist and none repeats (8 160 cases). An lvalue of every type from {bool, int, uint, float} x {scalar, 1, 2, 3} passed to an out / inout parameter of every such type (512 cases) is accepted exactly for equal types or T / T1 of one scalar. A catalogue of 10 resource-related pairs (writes to read-only buffers, textures and constant buffers, resources as operands) is checked the same way. Non-trivial: lint = module with at least 3 expressions; injection = violation rejected and twin accepted. Distinct = hash of the source.".into();
+    ctx.rule = "(1) IR lint: generated programs of the resource-free subset (always accepted, checked), every 1-2 operator expression tree over the whole operator table on int / float / mixed int-float-uint-bool operands (accepted or rejected; only accepted ones are linted), and the repository's own .rssl inputs are type checked; the resulting module is walked by an independent checker with structural types (operand types equal and of the required class for every operator, non-const lvalues for every write, call arity / argument types / out arguments, return types, constructor slots, initialiser shapes, conditions, subscripts, existing ids) and by RSSL's own Expression::get_type asserts. (2) Injection: 86 kinds of single typing violations (writes to const incl. members / elements / swizzles of const objects and static const globals, writes to rvalues, rvalue or const out / inout arguments, argument count and type errors, return type errors, non-boolean conditions, non-integer switch values, operator operand classes, initialiser shapes, ...) are placed in 15 expression / 5 statement / 3 return contexts inside a function appended before or after a generated program or as a struct method; the program with the violation must be rejected with a diagnostic and its valid twin must be accepted. Writes through every swizzle of length 1-4 over xyzw / rgba on float2/3/4 in four write positions (=, +=, out argument, ++) must be accepted exactly when all components exist and none repeats (8 160 cases). An lvalue of every type from {bool, int, uint, float} x {scalar, 1, 2, 3} passed to an out / inout parameter of every such type (512 cases) is accepted exactly for equal types or T / T1 of one scalar. Every access path of at most 4 steps (members, array elements, vector components / subscripts / swizzles, matrix rows / _mRC components / _mRC swizzles) from 12 root types (scalars, vectors, matrices, arrays of them, two structs, an array of structs) on a const parameter, const local and static const global, in 6 write forms (=, +=, ++, --, out argument, inout argument) must be rejected while the same program without `const` is accepted, and reading through the path must be accepted. A catalogue of 10 resource-related pairs (writes to read-only buffers, textures and constant buffers, resources as operands) is checked the same way. Non-trivial: lint = module with at least 3 expressions; injection = violation rejected and twin accepted. Distinct = hash of the source.".into();
     ctx.assumptions.push("the linter models the resource-free subset; object types, intrinsic signatures and matrices' aggregate initialisers are treated as opaque and counted".into());
     ctx.assumptions.push("a condition may have any numeric or enum type (it is converted where it is used); default argument values are stored unconverted and only need to be convertible".into());
     if !ctx.replay_tier(&check_record) {
@@ -1153,6 +1299,8 @@ pub fn run(ctx: &mut Ctx) {
     let swizzle_total = (3 * 4 * 2 * 340) as u64;
     ctx.run_enum("swizzle_write_table", swizzle_total, true, |i| json!({"kind": "swizzle", "index": i}), |i| check_record(&json!({"kind": "swizzle", "index": i})));
     // ---- exhaustive: argument type x out / inout parameter type
+    let const_write_total = (write_paths().len() * WRITE_FORMS * WRITE_PLACEMENTS) as u64;
+    ctx.run_enum("const_write_table", const_write_total, true, |i| json!({"kind": "const_write", "index": i}), |i| check_record(&json!({"kind": "const_write", "index": i})));
     ctx.run_enum("out_argument_type_table", 512, true, |i| json!({"kind": "out_argument", "index": i}), |i| check_record(&json!({"kind": "out_argument", "index": i})));
     // ---- exhaustive: every violation kind x context x placement on an empty base
     let n_ctx = CONTEXTS.len();
